@@ -2,9 +2,9 @@
 from .core import ob, prop
 
 # ----------------------------------------------------------------------------- vsfld.c / vg.c
-VSF = dict(unit="vsfld_u.c", file="hdf/src/vsfld.c", objbits=10,
+VSF = dict(unit="vsfld_u.c", file="hdf/src/vsfld.c",
            trusted=["scanattrs (vparse.c): FAIL or a vector of >=1 NUL-terminated tokens",
                     "HAatom_group/HAatom_object: group id / harness-built vsinstance_t or NULL"])
 ob("VSfdefine", ["C07", "C20"], entry="h_VSfdefine", enforce="VSfdefine", loops=True, nloops=1, loopcls="A",
-   overflow=True, defines=["H4V_ABS_STR", "NUSYM_MAX=16"], cex_unwind=14, timeout=900,
+   overflow=True, defines=["H4V_ABS_STR"], cex_unwind=50, timeout=900,
    **dict(VSF, trusted=VSF["trusted"] + ["strcmp abstracted to an arbitrary result, strdup to NULL-or-fresh (proof mode only)"]))
